@@ -95,10 +95,6 @@ def jObs : Obs → Json
   | .value out shape => Json.mkObj [("out", jRats out), ("shape", jNats shape)]
   | .error k => Json.mkObj [("error", .str k)]
 
-def resObs : Except String Vec → Obs
-  | .ok v => .value v [v.length]
-  | .error e => .error e
-
 /-- an observation agrees with the model's prediction (errors: same kind; behaviour outside the model,
     `unmodelled`, is never generated and never compared) -/
 def agrees (m o : Obs) : Bool :=
@@ -181,24 +177,21 @@ def pCalls (j : Json) : Except String (List CallRec) := do
       | v => do pure (some (← pObs v))
     pure ({ args, bare, outs, common } : CallRec))
 
-/-- model outputs for every call / wrapper, and agreement with the observations -/
+/-- the model's records (`Holds.modelRec`) for every call, and agreement with the observations -/
 def runCalls (cm : Common) (calls : List CallRec)
     (model : List Val → Bool → Option OutSlice → Except String Vec) :
     List (List Obs) × List (Option Obs) × Bool :=
-  let outs := calls.map (fun c => cm.slices.map (fun sl => resObs (model c.args c.bare sl)))
-  let commons := calls.map (fun c => if cm.shared then some (resObs (model c.args c.bare none)) else none)
-  let ok := (calls.zip (outs.zip commons)).all (fun (c, mo, mc) =>
-    c.outs.length == mo.length && (mo.zip c.outs).all (fun (m, o) => agrees m o) &&
-    (match mc, c.common with
+  let recs := calls.map (fun c => modelRec cm.slices cm.shared model c.args c.bare)
+  let ok := (calls.zip recs).all (fun (c, m) =>
+    c.outs.length == m.outs.length && (m.outs.zip c.outs).all (fun (m, o) => agrees m o) &&
+    (match m.common, c.common with
      | some m, some o => agrees m o
      | none, none => true
      | _, _ => false))
-  (outs, commons, ok)
+  (recs.map (·.outs), recs.map (·.common), ok)
 
-def answerCalls (cm : Common) (calls : List CallRec) (outs : List (List Obs)) (commons : List (Option Obs))
+def answerCalls (outs : List (List Obs)) (commons : List (Option Obs))
     (agree : Bool) (holds : Option String) (exact : Bool) (extra : List (String × Json)) : Json :=
-  let _ := cm
-  let _ := calls
   Json.mkObj ([
     ("model_outs", .arr (outs.map (fun l => Json.arr (l.map jObs).toArray)).toArray),
     ("model_common", .arr (commons.map (fun o => match o with | some o => jObs o | none => Json.null)).toArray),
@@ -241,10 +234,7 @@ def handlePinn (j : Json) : Except String Json := do
   let ssOk ← optSliceEq mSS (← j.getObjVal? "obs_slice_solution")
   let wf := net.all Layer.wf
   let model := refPinn cm.eqT net cm.inT cm.outT cm.eq
-  let modelM : List Val → Bool → Option OutSlice → Except String Vec := fun args bare sl =>
-    pinnCall cm.eqT (fun θ z => mlpEval θ z) cm.inT.applyIn cm.outT.applyOut sl args
-      (if bare then .bare net else .full net cm.eq)
-  let (outs, commons, ok) := runCalls cm calls modelM
+  let (outs, commons, ok) := runCalls cm calls model
   let bareAllowed := !cm.inT.needsEq && !cm.outT.needsEq
   let holds := if mCreate.isSome then none else holdsWrapper cm.eqT bareAllowed cm.slices model calls
   let guards := calls.map (fun c =>
@@ -256,7 +246,7 @@ def handlePinn (j : Json) : Except String Json := do
     | .error _ => ([], 0))
   let exact := guards.all (fun g => exactOk g.1 g.2)
   let agree := ok && ssOk && (mCreate == obsCreate) && wf
-  pure (answerCalls cm calls outs commons agree holds exact [
+  pure (answerCalls outs commons agree holds exact [
     ("model_create_error", jOptStr mCreate),
     ("model_slice_solution", match mSS with | some (a, b) => jNats [a, b] | none => Json.null),
     ("diff", .str (if !wf then "ill-formed-network" else if mCreate != obsCreate then "create-error"
@@ -311,10 +301,8 @@ def handleHyper (j : Json) : Except String Json := do
     | .error _ => pure ()
     if !(hyperNet.all Layer.wf) then diff := "ill-formed-network"
   let model := refHyper cm.eqT hyperparams hyperNet innerSpec cm.inT cm.outT cm.eq
-  let modelM : List Val → Bool → Option OutSlice → Except String Vec := fun args bare sl =>
-    hyperCall cm.eqT hyperparams innerSpec cm.inT.applyIn cm.outT.applyOut sl args
-      (if bare then .bare hyperNet else .full hyperNet cm.eq)
-  let (outs, commons, ok) := runCalls cm calls modelM
+  let (outs, commons, ok) := runCalls cm calls
+    (modelHyper cm.eqT hyperparams hyperNet innerSpec cm.inT cm.outT cm.eq)
   if !ok && diff == "" then diff := "call-output"
   let holds := if mCreate.isSome then none else holdsWrapper cm.eqT false cm.slices model calls
   -- exactness guard: hyper-network pass, then the inner network with the produced weights
@@ -330,7 +318,7 @@ def handleHyper (j : Json) : Except String Json := do
       | .error _ => (hv, hb)
     | _, _ => ([], 0))
   let exact := guards.all (fun g => exactOk g.1 g.2)
-  pure (answerCalls cm calls outs commons (diff == "") holds exact [
+  pure (answerCalls outs commons (diff == "") holds exact [
     ("model_create_error", jOptStr mCreate),
     ("model_inner_shapes", .arr (shapes.map jNats).toArray),
     ("model_cumsum", jNats cums),
@@ -364,10 +352,7 @@ def handleSpinn (j : Json) : Except String Json := do
   let nets ← (← getArr j "nets").mapM (fun n => do (← n.getArr?).toList.mapM pLayer)
   let calls ← (← getArr j "calls").mapM pSpinnCall
   let wf := nets.length == d && nets.all (fun n => n.all Layer.wf && n.map Layer.spec == spec)
-  let outs := calls.map (fun c =>
-    match spinnCall eqT r m c.t c.x (if c.bare then .bare nets else .full nets []) with
-    | .ok (v, shape) => Obs.value v.flatten shape
-    | .error e => Obs.error e)
+  let outs := calls.map (fun c => (modelSpinnRec eqT r m nets (c.t, c.x, c.bare)).obs)
   let ok := (outs.zip calls).all (fun (mo, c) => agrees mo c.obs)
   let holds := holdsSpinn eqT r m nets calls
   let guards := calls.map (fun c =>
